@@ -375,4 +375,7 @@ def memory_prelude(base, nbytes):
     for k in range(nw):
         out.append('  case %dUL: W%d = v; return;' % (w0 + k, w0 + k))
     out.append('  default: __CPROVER_assert(0, "shared store outside the cache object"); return; } }')
+    # the object lives in storage of arbitrary prior content: the constructor must establish everything the operations rely on
+    out.append('unsigned long nondet_ulong(void);')
+    out.append('void HAVOC(void){ %s }' % ' '.join('W%d = nondet_ulong();' % (w0 + k) for k in range(nw)))
     return '\n'.join(out)
